@@ -75,9 +75,12 @@ fn packings(thorough: bool) -> Vec<(String, TablePacking)> {
     v.push(("pub1-alu3-k3".into(), TablePacking::new(1, 3).with_horner_pack_k(3)));
     v.push(("pub2-alu1-min8".into(), TablePacking::new(2, 1).with_min_trace_height(8)));
     v.push(("pub1-alu2-k4".into(), TablePacking::new(1, 2).with_horner_pack_k(4)));
+    // k >= 5 has two intermediate columns: the smallest k where a short run leaves one unused
+    v.push(("pub1-alu1-k5".into(), TablePacking::new(1, 1).with_horner_pack_k(5)));
     if thorough {
         v.push(("pub3-alu4-k2-min16".into(), TablePacking::new(3, 4).with_min_trace_height(16)));
-        v.push(("pub1-alu1-k5".into(), TablePacking::new(1, 1).with_horner_pack_k(5)));
+        v.push(("pub1-alu2-k6".into(), TablePacking::new(1, 2).with_horner_pack_k(6)));
+        v.push(("pub1-alu1-k7".into(), TablePacking::new(1, 1).with_horner_pack_k(7)));
     }
     v
 }
